@@ -1,4 +1,4 @@
-use std::collections::BTreeMap;
+use std::collections::{BTreeMap, HashSet};
 
 use crate::MatrixVectorTypes;
 use naga::StructMember;
@@ -14,7 +14,15 @@ pub fn global_shader_stages(module: &naga::Module) -> BTreeMap<String, wgpu::Sha
     for entry in &module.entry_points {
         verif_point!("global_shader_stages:entry");
         let stage = naga_stages(entry.stage);
-        update_stages(module, &entry.function, &mut global_stages, stage);
+        // Visit each function only once per entry point.
+        let mut visited = HashSet::new();
+        update_stages(
+            module,
+            &entry.function,
+            &mut global_stages,
+            stage,
+            &mut visited,
+        );
     }
 
     global_stages
@@ -41,30 +49,39 @@ fn update_stages_blocks(
     block: &naga::Block,
     global_stages: &mut BTreeMap<String, wgpu::ShaderStages>,
     stage: wgpu::ShaderStages,
+    visited: &mut HashSet<naga::Handle<naga::Function>>,
 ) {
     verif_point!("update_stages_blocks");
     for statement in block.iter() {
         match statement {
             naga::Statement::Block(block) => {
-                update_stages_blocks(module, block, global_stages, stage);
+                update_stages_blocks(module, block, global_stages, stage, visited);
             }
             naga::Statement::If { accept, reject, .. } => {
-                update_stages_blocks(module, accept, global_stages, stage);
-                update_stages_blocks(module, reject, global_stages, stage);
+                update_stages_blocks(module, accept, global_stages, stage, visited);
+                update_stages_blocks(module, reject, global_stages, stage, visited);
             }
             naga::Statement::Switch { cases, .. } => {
                 for c in cases {
-                    update_stages_blocks(module, &c.body, global_stages, stage);
+                    update_stages_blocks(module, &c.body, global_stages, stage, visited);
                 }
             }
             naga::Statement::Loop {
                 body, continuing, ..
             } => {
-                update_stages_blocks(module, body, global_stages, stage);
-                update_stages_blocks(module, continuing, global_stages, stage);
+                update_stages_blocks(module, body, global_stages, stage, visited);
+                update_stages_blocks(module, continuing, global_stages, stage, visited);
             }
             naga::Statement::Call { function, .. } => {
-                update_stages(module, &module.functions[*function], global_stages, stage);
+                if visited.insert(*function) {
+                    update_stages(
+                        module,
+                        &module.functions[*function],
+                        global_stages,
+                        stage,
+                        visited,
+                    );
+                }
             }
             _ => (),
         }
@@ -76,10 +93,11 @@ fn update_stages(
     function: &naga::Function,
     global_stages: &mut BTreeMap<String, wgpu::ShaderStages>,
     stage: wgpu::ShaderStages,
+    visited: &mut HashSet<naga::Handle<naga::Function>>,
 ) {
     verif_point!("update_stages");
     // Search the function body to find function call statements
-    update_stages_blocks(module, &function.body, global_stages, stage);
+    update_stages_blocks(module, &function.body, global_stages, stage, visited);
 
     // Search the function body to find used globals.
     for (_, e) in function.expressions.iter() {
@@ -95,7 +113,9 @@ fn update_stages(
             }
             naga::Expression::CallResult(f) => {
                 // Function call expressions
-                update_stages(module, &module.functions[*f], global_stages, stage);
+                if visited.insert(*f) {
+                    update_stages(module, &module.functions[*f], global_stages, stage, visited);
+                }
             }
             _ => (),
         }
